@@ -327,10 +327,14 @@ ROUND2 = {
     "C02": "Round 2: the second world / re-evaluation and the poset family apply to the bags as well.",
     "C03": "Round 2: every family also returns the results of fresh identical queries evaluated alone (metamorphic alone-oracle), "
            "bare-variable queries and rule-query families.",
-    "C04": "Round 2: ObjGraph.tla has a normally mapped subclass N of the alternatively mapped class M and function-valued fields.",
-    "C05": "Round 2: as C04 (class N, row counts of table VN).",
-    "C06": "Round 2: the generated module must not import the synthesised modules of other models.",
-    "C07": "Round 2: string membership / prefix conditions (strings family) next to the sql and chains families.",
+    "C04": "Round 2: ObjGraph.tla has a normally mapped subclass N of the alternatively mapped class M, function-valued fields, and a "
+           "mapped subclass W of C whose direct base is an unmapped intermediate class.",
+    "C05": "Round 2: as C04 (classes N and W, row counts of the tables VN and VW, loading through VWDAO and VCDAO).",
+    "C06": "Round 2: the generated module must not import the synthesised modules of other models; ClassModel.tla models in which a "
+           "class reaches its mapped base through an unmapped intermediate class that has a field of its own (u2 / u3).",
+    "C07": "Round 2: string membership / prefix conditions (strings family) next to the sql and chains families; SqlJoin.tla - joins "
+           "between two variables of different classes through relationship attributes (46 patterns; one row per binding, the() "
+           "outcome; CollapsePartners refuted), three-way against TLC's bag, the in-memory evaluation and the translated SQL.",
     "C08": "Round 2: the base condition is a truth dimension of RuleTree.tla (one element per truth vector of the branch conditions "
            "AND the base condition, base-failing bindings enumerated before and after satisfying ones), and every program is also "
            "written in two steps (branches in a first `with query:` block, base conclusion in a second one).",
